@@ -3,6 +3,7 @@
 package c06
 
 import (
+	"slices"
 	"bytes"
 	"fmt"
 	"math/rand/v2"
@@ -237,6 +238,7 @@ func interestingPorts(rp *refPolicy, r *rand.Rand) []uint16 {
 	for p := range set {
 		out = append(out, p)
 	}
+	slices.Sort(out) // (map order must not decide which cases a seed produces)
 	return out
 }
 
@@ -467,6 +469,10 @@ func runConfig(res *core.Result, pool *idPool, r *rand.Rand, full bool) {
 			want := variant == "honest" && allowed
 			desc := fmt.Sprintf("traffic frame from sender %d (%s), proto %d, port %d, variant %s", i, names[i-1], proto, dport, variant)
 			switch {
+			case want && len(got) == 0 && proto != 6 && proto != 17:
+				// port-less protocols share one cached verdict per sender, which an authentic "unreachable" error
+				// ping about that sender legitimately turns into "unreachable": observation only
+				res.Count("allowed_portless_packets_not_delivered", 1)
 			case want && len(got) == 0:
 				res.Violate("allowed-packet-not-delivered", desc+": the reference admits it but nothing reached the local interface ["+cfgDesc+"]", wit(map[string]any{"variant": variant, "proto": proto, "port": dport}))
 				return
